@@ -17,6 +17,7 @@ import (
 	"time"
 
 	"golang.org/x/crypto/ssh"
+	"pgregory.net/rapid"
 
 	"verif/harness/internal/ev"
 	"verif/harness/internal/refpeer"
@@ -252,6 +253,20 @@ func newWatch(prog *mx.Progress) *mx.Watch {
 		w.TotalBudget = 240 * time.Second
 	}
 	return w
+}
+
+// pick draws an approximately uniform value in [0, n).  rapid's integer
+// generators are deliberately biased to small values and boundaries, which is
+// wrong for choosing between weighted alternatives; the draw is therefore
+// passed through a mixing function (it still shrinks toward 0).
+func pick(t *rapid.T, label string, n int) int {
+	x := rapid.Uint64().Draw(t, label) + 0x9e3779b97f4a7c15
+	x ^= x >> 30
+	x *= 0xbf58476d1ce4e5b9
+	x ^= x >> 27
+	x *= 0x94d049bb133111eb
+	x ^= x >> 31
+	return int(x % uint64(n))
 }
 
 func knownFinding(id string) (ev.Finding, bool) { return ev.IsKnownFinding(id) }
